@@ -21,7 +21,8 @@ pub enum Op {
 }
 
 /// option values: (tv_sec, tv_usec)
-const VALS: [(i64, i64); 4] = [(0, 0), (0, 8000), (1, 0), (-1, 0)];
+/// (0, 2_000_000) is rejected by the kernel (EDOM): the option keeps its previous value
+const VALS: [(i64, i64); 5] = [(0, 0), (0, 8000), (0, 2_000_000), (1, 0), (-1, 0)];
 
 fn val_ns(v: usize) -> u64 {
     let (s, u) = VALS[v];
@@ -203,12 +204,25 @@ fn exec(c: &Case, em: &mut Emitter) {
 }
 
 pub fn run(tier: &str, rep: &mut Report) {
-    let (depth, nvals) = if tier == "thorough" { (5, 4) } else { (4, 3) };
-    let mut cases = vec![Case { prefix: vec![], depth: 0, nvals }];
-    for op in enabled(&[], nvals) {
-        cases.push(Case { prefix: vec![op], depth, nvals });
+    // (depth, number of option values); the two slots are interchangeable, so the first operation
+    // always goes to slot 0
+    let cfgs: Vec<(usize, usize)> = if tier == "thorough" { vec![(6, 3), (5, 5)] } else { vec![(5, 3)] };
+    let mut cases = Vec::new();
+    for (depth, nvals) in &cfgs {
+        cases.push(Case { prefix: vec![], depth: 0, nvals: *nvals });
+        for op in enabled(&[], *nvals) {
+            if !matches!(op, Op::Set(0, ..) | Op::Io(0, _) | Op::Close(0)) {
+                continue;
+            }
+            cases.push(Case { prefix: vec![op], depth: 1, nvals: *nvals });
+            for op2 in enabled(&[op], *nvals) {
+                cases.push(Case { prefix: vec![op, op2], depth: *depth, nvals: *nvals });
+            }
+        }
     }
-    rep.bounds = json!({"slots": 2, "depth": depth, "values": VALS.iter().take(nvals).map(|(s, u)| format!("{s}s{u}us")).collect::<Vec<_>>(),
+    rep.bounds = json!({"slots": 2, "depth_and_values": cfgs.iter().map(|(d, n)| json!({"depth": d, "values": VALS.iter().take(*n).map(|(s, u)| format!("{s}s{u}us")).collect::<Vec<_>>()})).collect::<Vec<_>>(),
+        "symmetry": "the first operation goes to slot 0 (the slots are interchangeable)",
+        "rejected_value": "0s2000000us is refused by the kernel with EDOM and must leave the applied limit alone",
         "ops": ["set(slot, SO_RCVTIMEO|SO_SNDTIMEO, value)", "io(slot, read|write)", "close(slot) through the hooked close", "open(slot) on the same descriptor number"],
         "dedup": "none: every history is executed"});
     rep.require(&["histories_with_descriptor_reuse"]);
